@@ -29,6 +29,7 @@ type Flow struct {
 	// set while a query evaluates its Target: what the path knows (see KnownNonNil)
 	curFacts  map[string]bool
 	curRefSet map[types.Object]bool
+	boolConst map[*types.Var]bool
 	curRefNil bool
 }
 
@@ -472,6 +473,19 @@ func (f *Flow) Reach(q Query) ([]Pt, bool) {
 					}
 					o := objOf(f.Info, id)
 					v, isVar := o.(*types.Var)
+					if isVar && !v.IsField() && isBoolType(v.Type()) {
+						// a flag assigned a constant
+						bkey := v.Name() + "@" + itoa(int(v.Pos()))
+						if _, tracked := corr[bkey]; tracked {
+							if tv, has := f.Info.Types[as.Rhs[i]]; has && tv.Value != nil && tv.Value.Kind() == constant.Bool {
+								if add == nil {
+									add = map[string]bool{}
+								}
+								add[bkey] = constant.BoolVal(tv.Value)
+							}
+						}
+						continue
+					}
 					if !isVar || v.IsField() || !isErrorType(v.Type()) {
 						continue
 					}
@@ -646,6 +660,13 @@ func (f *Flow) corrAtoms() map[string][]types.Object {
 				}
 				count[t]++
 				objs[t] = os
+				// a test of a local flag that is assigned a constant somewhere is tracked even when it occurs once (the
+				// assignment makes the outcome known: `ok = true; …; if !ok {`)
+				if id, isID := ast.Unparen(af.E).(*ast.Ident); isID {
+					if v, isVar := f.Info.Uses[id].(*types.Var); isVar && !v.IsField() && isBoolType(v.Type()) && f.constAssignedBool(v) {
+						count[t]++
+					}
+				}
 				// a nil test of a local error variable is tracked even when it occurs once: whether `return err`
 				// further down is a success depends on it (IsSuccessReturn consults the facts of the path)
 				if be, ok := ast.Unparen(af.E).(*ast.BinaryExpr); ok && (be.Op == token.EQL || be.Op == token.NEQ) {
@@ -1765,4 +1786,27 @@ func (f *Flow) rawBetween(from, mid, to token.Pos) bool {
 
 func isCall_(info *types.Info, call *ast.CallExpr, names ...string) bool {
 	return isCall(info, call, names...)
+}
+
+
+// constAssignedBool: some assignment in the function gives the flag a constant.
+func (f *Flow) constAssignedBool(v *types.Var) bool {
+	if f.boolConst == nil {
+		f.boolConst = map[*types.Var]bool{}
+		ast.Inspect(f.Body, func(n ast.Node) bool {
+			as, ok := n.(*ast.AssignStmt)
+			if !ok || len(as.Lhs) != len(as.Rhs) {
+				return true
+			}
+			for i, l := range as.Lhs {
+				if bv, isVar := objOf(f.Info, l).(*types.Var); isVar && !bv.IsField() && isBoolType(bv.Type()) {
+					if tv, has := f.Info.Types[as.Rhs[i]]; has && tv.Value != nil && tv.Value.Kind() == constant.Bool {
+						f.boolConst[bv] = true
+					}
+				}
+			}
+			return true
+		})
+	}
+	return f.boolConst[v]
 }
